@@ -123,6 +123,45 @@ fn check_queries(ns: &'static Namespace<'static>, r: &RefNs, symbols: &[String],
 /// reflect on the record as given, and on the same record carrying the identity tags every stored
 /// record has (`id`, `mod`, `dis` — the same id and mod for every record of the enumeration: a
 /// projection or an edited copy of one entity)
+/// The same answers on a fresh namespace asked deepest-first (reverse symbol order): a cache filled
+/// while walking up from a leaf must leave every def on the way with its full answer (C13-r7: an
+/// inheritance walk that shares one visited set caches a truncated chain for the second arm of a
+/// diamond — invisible when roots are asked first).
+fn check_leaf_first(rows: &[Tags], r: &RefNs, symbols: &[String]) -> Verdict {
+    let mut rev: Vec<String> = symbols.iter().rev().cloned().collect();
+    rev.sort_by_key(|s| std::cmp::Reverse(r.all_supertypes(s).len())); // stable: deepest defs first
+    with_ns(rows, |ns| -> Verdict {
+        // one query kind at a time from the leaves, then everything again in reverse order
+        for s in &rev {
+            let got = names(&ns.inheritance(&sym(s)));
+            if got != r.inheritance(s) {
+                return Err(("leaf-first:inheritance".into(), format!("asked deepest-first on a fresh namespace: inheritance({s}) = {got:?}, graph says {:?}", r.inheritance(s))));
+            }
+        }
+        check_queries(ns, r, &rev, rev.len() <= 24).map_err(|(q, d)| (format!("leaf-first:{q}"), format!("asked deepest-first on a fresh namespace: {d}")))
+    })?;
+    // fits first, before any other query has filled a cache
+    with_ns(rows, |ns| -> Verdict {
+        for a in rev.iter().take(6) {
+            for b in symbols {
+                let got = ns.fits(&sym(a), &sym(b));
+                if got != r.fits(a, b) {
+                    return Err(("leaf-first:fits".into(), format!("asked deepest-first on a fresh namespace: fits({a}, {b}) = {got}, graph says {}", r.fits(a, b))));
+                }
+            }
+        }
+        for a in symbols {
+            for b in symbols.iter().take(if symbols.len() <= 24 { symbols.len() } else { 4 }) {
+                let got = ns.fits(&sym(a), &sym(b));
+                if got != r.fits(a, b) {
+                    return Err(("leaf-first:fits".into(), format!("after fits from the deepest defs: fits({a}, {b}) = {got}, graph says {}", r.fits(a, b))));
+                }
+            }
+        }
+        Ok(())
+    })
+}
+
 fn check_reflect(ns: &'static Namespace<'static>, r: &RefNs, rec: &Tags, symbols: &[String]) -> Verdict {
     check_reflect_one(ns, r, rec, symbols)?;
     if rec.iter().any(|(k, _)| k == "id" || k == "mod" || k == "dis") {
@@ -294,7 +333,8 @@ fn check_small(nsym: usize, dag: usize, conj: usize, extras: usize, recs: &[Tags
                 check_reflect(ns, &r, rec, &symbols)?;
             }
             Ok(())
-        })
+        })?;
+        check_leaf_first(&rows, &r, &symbols)
     });
     match res {
         Ok(Ok(())) => local.outcome("ok"),
@@ -462,7 +502,8 @@ fn check_shaped(name: &str, rows: &[Tags], local: &mut Local) {
                 check_reflect(ns, &r, rec, &probe)?;
             }
             Ok(())
-        })
+        })?;
+        check_leaf_first(rows, &r, &symbols)
     });
     match res {
         Ok(Ok(())) => local.outcome("ok"),
@@ -619,7 +660,8 @@ pub fn replay(case: &J) -> Verdict {
                     check_reflect(ns, &r, rec, &symbols)?;
                 }
                 Ok(())
-            })
+            })?;
+            check_leaf_first(&rows, &r, &symbols)
         });
         return match res {
             Ok(Ok(())) => Ok(()),
